@@ -198,8 +198,8 @@ def descRV (heap : List (Nat × Runtime.Obj)) : Nat → Runtime.RV → Json
       Json.mkObj ([("k", Json.str "obj"), ("ptr", Json.bool ptr), ("serial", Json.num serial), ("ctor", Json.str o.ctor),
         ("args", sl o.args),
         ("log", Json.arr (o.log.map fun (m, as) => Json.mkObj [("m", m), ("args", sl as)]).toArray)] ++
-        (match o.f1 with | some x => [("F1", descRV heap f x)] | none => []) ++
-        (match o.f2 with | some x => [("F2", descRV heap f x)] | none => []) ++
+        (match o.f1 with | some .nil => [] | some (.prim .null) => [] | some x => [("F1", descRV heap f x)] | none => []) ++
+        (match o.f2 with | some .nil => [] | some (.prim .null) => [] | some x => [("F2", descRV heap f x)] | none => []) ++
         (match o.prev with | some x => [("prev", descRV heap f x)] | none => []))
     match v with
     | .nil => Json.mkObj [("k", "nil")]
